@@ -24,7 +24,8 @@ theorem akeHasFinished_run (K : Crypto) (s : MState) (a : Ake) (ha : s.conv.ake 
     ∃ r env' mm', EnvStep s.env env' ∧
       runM (akeHasFinished K) s = .ok (.ok (a.keys.generateNewDHKeyPair K r).2,
         { conv := { s.conv with
-                      keys := (a.keys.generateNewDHKeyPair K r).1
+                      keys := ({ a.keys with oldMACKeys := a.keys.oldMACKeys ++
+                        (s.conv.keys.oldMACKeys ++ s.conv.keys.macHistory.map (fun u : MacUse => u.key)) }.generateNewDHKeyPair K r).1
                       ssid := if s.conv.msgState = .encrypted then a.ssid else s.conv.ssid
                       sentRevealSig := if s.conv.msgState = .encrypted then a.sentRevealSig else s.conv.sentRevealSig
                       ake := some a.wiped
